@@ -98,6 +98,7 @@ def runIn (j : Json) : R Run := do
   let args : Args := {
     start := ← jInt (← fld j "start"), epochs := ← jInt (← fld j "epochs"), N := ← jNat (← fld j "N"),
     posB := ← jNat (← fld j "posB"), negB := negB, hasBases := ← jBool (← fld j "hasBases"),
+    nZ := ← (match fldOpt j "nZ" with | none => do jNat (← fld j "N") | some v => jNat v : R Nat),
     callbacks := ← cbArgIn (← fld j "callbacks"), time := ← jBool (← fld j "timer"),
     hasSched := ← jBool (← fld j "hasSched") }
   return { pre := pre, args := args, req := ← reqIn j }
@@ -167,7 +168,7 @@ def outOf (r : List Entry × S) : Json :=
     ("stop", .bool r.2.stop), ("ver", nOut r.2.ver), ("sched", nOut r.2.sched)]
 
 /-- op `c12.session`: consecutive `fit` calls on one object, from the caller's arguments (`QV.Train.session`).
-in : stop0, runs : [{pre : null|bool, start, epochs, N, posB, negB : null|nat, hasBases, callbacks : {form, items},
+in : stop0, runs : [{pre : null|bool, start, epochs, N, nZ (rows in the reference basis; default N), posB, negB : null|nat, hasBases, callbacks : {form, items},
      timer, hasSched, req_cb, req_mid}, …]
 out: {runs : [{log, events, calls, prints, stop, ver, sched, batchesPerEpoch, cbs}, …]} or {error} -/
 def runSession (j : Json) : R Json := do
@@ -187,7 +188,7 @@ def runSession (j : Json) : R Json := do
   | .error e => return errOut e
   | .ok outs =>
     let extra (r : Run) (o : List Entry × S) : List (String × Json) :=
-      [("batchesPerEpoch", match batchesPerEpoch r.args.N r.args.posB r.args.negB r.args.hasBases with
+      [("batchesPerEpoch", match batchesPerEpoch r.args.N r.args.nZ r.args.posB r.args.negB r.args.hasBases with
           | .ok nb => nOut nb | .error e => errOut e),
        ("cbs", .arr ((wrapCallbacks r.args.callbacks).toArray.map nOut))] ++
       (match tab with
@@ -202,11 +203,25 @@ def runSession (j : Json) : R Json := do
       | x => x)
     return Json.mkObj [("runs", .arr js.toArray)]
 
+/-- op `c12.abort`: one `fit` call that may raise (`QV.Train.fitArgs` / `fitArgsAbortLog`), flag clear at entry.
+in : one run object as in `c12.session`, plus `nZ`
+out: {result : "ok" | error kind, abortEvents, abortCalls (what the callbacks have seen when the call raises)} -/
+def runAbort (j : Json) : R Json := do
+  let r ← runIn j
+  let res := match fitArgs r.args r.req false with
+    | .ok _ => "ok"
+    | .error e => e.toString
+  let l := fitArgsAbortLog r.args r.req
+  return Json.mkObj [("result", .str res),
+    ("abortEvents", .arr ((events l).toArray.map evOut)),
+    ("abortCalls", .arr ((calls l).toArray.map (fun p => .arr #[nOut p.1, evOut p.2])))]
+
 def handle (op : String) (j : Json) : Option (R Json) :=
   match op with
   | "c12.fit" => some (runFit j)
   | "c12.session" => some (runSession j)
   | "c12.lambda_init" => some (runLambdaInit j)
+  | "c12.abort" => some (runAbort j)
   | _ => none
 
 end Drv.C12
